@@ -312,6 +312,16 @@ def misuse_menu(s, opts, d):
                             evs.append(("x-len", via, path, "ax%d+" % ax))
                             if shape[ax] > 1:
                                 evs.append(("x-len", via, path, "ax%d-" % ax))
+                    if via == "h" and xt.py_expressible(nt, nv):
+                        # the same misfits given as an OBJECT of the very class of the field (another buffer): for items smaller
+                        # than a slot, and for extents traded between two dynamic axes, the total size is the field's own
+                        if nt[2][0] is None:
+                            evs.append(("x-len", via, path, "longer", "xobj"))
+                            if shape[0] > 1:
+                                evs.append(("x-len", via, path, "shorter", "xobj"))
+                        if len(shape) > 1 and len(set(shape)) > 1 and all(sh > 0 for sh in shape) and all(d is None for d in nt[2]):
+                            evs.append(("x-len", via, path, "reshape", "xobj"))
+                            evs.append(("x-len", via, path, "swap", "xobj"))
                     if not xt.is_dyn(nt[1]) and nt[2][0] is None and all(d is not None for d in nt[2][1:]):
                         # the integer form of an update ("keep the length"): any other integer is another length
                         evs.append(("x-len", via, path, "int-longer"))
@@ -405,6 +415,8 @@ def apply_misuse(s, ev):
             shape[0] -= 1
         elif ev[3].startswith("ax"):
             shape[int(ev[3][2:-1])] += 1 if ev[3].endswith("+") else -1
+        elif ev[3] == "swap":
+            shape[0], shape[1] = shape[1], shape[0]
         else:
             flat = int(np.prod(shape))
             shape = [flat] + [1] * (len(shape) - 1)
@@ -412,6 +424,10 @@ def apply_misuse(s, ev):
         val = {"shape": tuple(shape), "items": items}
         ft = ("A", nt[1], tuple(None for _ in shape), nt[3])
         arg = xt.to_nd(ft, val, "nd") if nt[1][0] == "S" and not xt.py_expressible(ft, val) else xt.to_py(ft, val)
+        if len(ev) > 4 and ev[4] == "xobj":
+            _, ch = hand.nav(rt, rh, path)
+            arg = type(ch)(arg, _buffer=place.traced("np", 0))  # (the class object of the field itself)
+            assert tuple(arg._shape) == tuple(shape) != tuple(nv["shape"])
         hand.assign(rt, rh, path, arg)
     elif kind == "x-str":
         room = s.rooms[ev[2]]
